@@ -27,6 +27,10 @@ fn collect_deps(
 	resolver: &FileImportResolver,
 	source: &SourcePath,
 	deps: &mut BTreeSet<String>,
+	// Files whose own imports were already collected. Separate from `deps`: a file first
+	// seen through importstr/importbin is listed, but still has to be walked once some
+	// `import` reaches it.
+	walked: &mut BTreeSet<String>,
 ) -> Result<(), String> {
 	let contents = resolver
 		.load_file_contents(source)
@@ -49,8 +53,9 @@ fn collect_deps(
 			.resolve_from(source, &&*path)
 			.map_err(|e| format!("{e}"))?;
 		let path_str = format!("{resolved}");
-		if deps.insert(path_str) && expression {
-			collect_deps(resolver, &resolved, deps)?;
+		deps.insert(path_str.clone());
+		if expression && walked.insert(path_str) {
+			collect_deps(resolver, &resolved, deps, walked)?;
 		}
 	}
 
@@ -69,7 +74,9 @@ fn main() {
 		});
 
 	let mut deps = BTreeSet::new();
-	if let Err(e) = collect_deps(&resolver, &source, &mut deps) {
+	let mut walked = BTreeSet::new();
+	walked.insert(format!("{source}"));
+	if let Err(e) = collect_deps(&resolver, &source, &mut deps, &mut walked) {
 		eprintln!("{e}");
 		exit(1);
 	}
